@@ -197,6 +197,18 @@ pub fn run(tier: Tier) -> i32 {
         local.count("d2-core-bound2");
     });
     run.absorb(l);
+    // three deviations at once on a small kind-complete set (thorough: also the pool containers)
+    let mut b3: Vec<V> = u::pool_scalars();
+    b3.extend([u::small_grid(), u::meta_grid(), V::dict(&[("a", V::num(1.0)), ("b", V::Marker)]), V::List(vec![V::num(1.0), V::str("s")])]);
+    if tier == Tier::Thorough {
+        b3.extend(u::pool_containers1());
+        b3.extend(core_grids());
+    }
+    let l = par_for(b3.len(), |i, local| {
+        check_spellings(&b3[i], Some(3), tier.pick(400_000, 8_000_000), local);
+        local.count("d2-bound3");
+    });
+    run.absorb(l);
     if tier == Tier::Thorough {
         let sct = u::scalars(Tier::Thorough);
         let l = par_for(sct.len(), |i, local| {
